@@ -8,10 +8,80 @@ use composition::oligo::OligoComputer;
 use composition::oligocgr::OligoCgrComputer;
 use kmer::kmer::KmerGenerator;
 
+/// Record ids are part of the input: a third of the record lists (chosen by their content, so that a replay
+/// writes the same file) give every record the same id, a third use two ids alternately, the rest unique ids.
+pub fn rec_id(records: &[Vec<u8>], i: usize) -> String {
+    let h = records.len() + records.iter().map(|r| r.len()).sum::<usize>();
+    match h % 3 {
+        0 => format!("r{}", i),
+        1 => "same".to_string(),
+        _ => format!("r{}", i % 2),
+    }
+}
+
+/// Neighbouring records related in every way a "same as the one before?" shortcut could confuse: for every ordered
+/// pair (r1, r2) of relations the list holds b, r1(b), r2(r1(b)) for a fresh b, and runs of up to five identical records.
+pub fn related_records() -> Vec<Vec<u8>> {
+    type Rel = fn(&[u8]) -> Vec<u8>;
+    let rels: [Rel; 9] = [
+        |b| b.to_vec(),
+        |b| b[..b.len() * 2 / 3].to_vec(),
+        |b| [b, &b"GATTC"[..]].concat(),
+        |b| b[b.len() / 3..].to_vec(),
+        |b| model::rc_text(b),
+        |b| b.to_ascii_lowercase(),
+        |b| b.iter().map(|&c| if c == b'T' { b'U' } else { c }).collect(),
+        |_| Vec::new(),
+        |b| b[..b.len().min(2)].to_vec(),
+    ];
+    let mut out: Vec<Vec<u8>> = Vec::new();
+    let mut x: u64 = 77;
+    for r1 in rels.iter() {
+        for r2 in rels.iter() {
+            let len = 9 + out.len() % 7;
+            let b: Vec<u8> = (0..len)
+                .map(|_| {
+                    x = x.wrapping_mul(6364136223846793005).wrapping_add(1442695040888963407);
+                    b"ACGT"[((x >> 40) % 4) as usize]
+                })
+                .collect();
+            let b1 = r1(&b);
+            let b2 = r2(&b1);
+            out.push(b);
+            out.push(b1);
+            out.push(b2);
+        }
+    }
+    for run in [4usize, 5] {
+        for _ in 0..run {
+            out.push(b"GGATCCAAGT".to_vec());
+        }
+        out.push(b"A".repeat(7 + run));
+        out.push(b"A".repeat(3));
+        out.push(b"A".repeat(12));
+    }
+    out
+}
+
+/// (the lengths are chosen so that `rec_id` gives all of them the same id)
+/// records that repeat: identical neighbours, the reverse complement and the lower-case form of the previous
+/// record, and a record that comes back later
+pub fn repeating_records() -> Vec<Vec<u8>> {
+    let x = b"ACGGTCAAGT".to_vec();
+    let y = b"TTGACNGGATATAT".to_vec();
+    let mut v = vec![x.clone(), x.clone(), model::rc_text(&x), x.to_ascii_lowercase(), y.clone(), x.clone(), y.clone(), y, b"AAAAAAAAAAA".to_vec(), b"TTTTTTTTTT".to_vec(), b"ACGTACGTACGT".to_vec(), b"ACGTACGTACGT".to_vec()];
+    v.extend(related_records());
+    // pad so that every record gets the same id (see rec_id)
+    while (v.len() + v.iter().map(|r| r.len()).sum::<usize>()) % 3 != 1 {
+        v.last_mut().unwrap().push(b'C');
+    }
+    v
+}
+
 pub fn write_fasta(path: &str, records: &[Vec<u8>]) {
     let mut data: Vec<u8> = Vec::new();
     for (i, r) in records.iter().enumerate() {
-        data.extend_from_slice(format!(">r{}\n", i).as_bytes());
+        data.extend_from_slice(format!(">{}\n", rec_id(records, i)).as_bytes());
         data.extend_from_slice(r);
         data.push(b'\n');
     }
@@ -63,8 +133,43 @@ pub fn c03_k(ctx: &mut Ctx, k: usize) {
     }
     ctx.rep.count("codes_checked", model::pow4(k) as u64);
     ctx.rep.nontrivial += index.len() as u64;
+    // the columns of the composition vector itself, for every canonical k-mer and both of its strands: record j holds
+    // (separated by an ambiguous byte) exactly the k-mers whose rank has bit j set, the last record all of them, so
+    // the counts of column r over the records spell r in binary if and only if every k-mer lands in its own column
+    if k <= 10 {
+        let mut raw = OligoComputer::new("-".into(), "-".into(), k);
+        raw.set_norm(false);
+        let n = index.len();
+        let nbits = (usize::BITS - (n - 1).max(1).leading_zeros()) as usize;
+        for strand in 0..2 {
+            for j in 0..=nbits {
+                let member = |r: usize| j == nbits || (r >> j) & 1 == 1;
+                let mut rec: Vec<u8> = Vec::with_capacity(n * (k + 1) / 2 + 16);
+                for (r, &code) in index.iter().enumerate() {
+                    if member(r) {
+                        let t = model::text_of(code, k);
+                        rec.extend_from_slice(&if strand == 0 { t } else { model::rc_text(&t) });
+                        rec.push(b'N');
+                    }
+                }
+                ctx.rep.evaluations += 1;
+                let v = match guard(|| raw.verif_vectorise_one(&rec)) {
+                    Ok(v) => v,
+                    Err(p) => return viol(ctx, "panic", k, format!("vectorise_one k={k} panicked: {p}"), argv),
+                };
+                if v.len() != n {
+                    return viol(ctx, "vector-length", k, format!("k={k}: the composition vector has {} columns, expected {n}", v.len()), argv);
+                }
+                if let Some(r) = (0..n).find(|&r| v[r] != if member(r) { 1.0 } else { 0.0 }) {
+                    return viol(ctx, "vector-column", k, format!("k={k}: a record holding once each {}canonical k-mer whose rank has bit {j} set{}: column {r} (k-mer {}) counts {}, expected {}", if strand == 0 { "" } else { "reverse complement of a " }, if j == nbits { " (all of them)" } else { "" }, show(&model::text_of(index[r], k)), v[r], member(r) as u8), argv);
+                }
+                ctx.rep.nontrivial += 1;
+            }
+        }
+        ctx.rep.count("vector_column_records", 2 * (nbits as u64 + 1));
+    }
     // header through the library
-    if k <= 8 {
+    if k <= 10 {
         let names: Vec<String> = index.iter().map(|&c| String::from_utf8(model::text_of(c, k)).unwrap()).collect();
         let got = guard(|| OligoComputer::new("-".into(), "-".into(), k).verif_get_header());
         ctx.rep.evaluations += 1;
@@ -272,6 +377,13 @@ fn parse_rows(text: &str, delim: &str) -> Result<Vec<Vec<f64>>, String> {
     Ok(rows)
 }
 
+fn c04_named_set(name: &str) -> Vec<Vec<u8>> {
+    match name {
+        "repeating" => repeating_records(),
+        _ => vec![crate::iters::long_input(70_000, 4), b"ACGU".to_vec(), crate::iters::long_input(66_000, 9), crate::iters::long_input(4097, 1), b"".to_vec(), crate::iters::long_input(140_000, 12)],
+    }
+}
+
 fn c04_orders(maxlen: usize) -> Vec<Vec<Vec<u8>>> {
     let base = strings(S5, 0, maxlen);
     let n = base.len();
@@ -457,17 +569,20 @@ pub fn c04(ctx: &mut Ctx) {
         }
     }
     // long records (beyond 64 Ki bases, with lower case, U and ambiguous bytes) through every writer path
-    let long_set: Vec<Vec<u8>> = vec![crate::iters::long_input(70_000, 4), b"ACGU".to_vec(), crate::iters::long_input(66_000, 9), crate::iters::long_input(4097, 1), b"".to_vec(), crate::iters::long_input(140_000, 12)];
-    for k in [1usize, 3, 4] {
-        for (mode, threads) in [("mmap", 3usize), ("batch-norm", 4), ("batch-small", 2), ("counts", 2), ("counts", 1)] {
-            if sh.mine() {
-                let before = ctx.rep.violations.len();
-                c04_file(ctx, k, &long_set, mode, threads);
-                for v in ctx.rep.violations.iter_mut().skip(before) {
-                    v.argv = vec!["case".into(), "C04long".into(), k.to_string(), mode.to_string(), threads.to_string()];
-                    v.desc = format!("[long records] {}", v.desc);
+    // and records that repeat (identical neighbours, reverse complement of the previous record, ...)
+    for set in ["long", "repeating"] {
+        let records = c04_named_set(set);
+        for k in [1usize, 3, 4] {
+            for (mode, threads) in [("mmap", 3usize), ("batch-norm", 4), ("batch-small", 2), ("counts", 2), ("counts", 1)] {
+                if sh.mine() {
+                    let before = ctx.rep.violations.len();
+                    c04_file(ctx, k, &records, mode, threads);
+                    for v in ctx.rep.violations.iter_mut().skip(before) {
+                        v.argv = vec!["case".into(), "C04long".into(), k.to_string(), mode.to_string(), threads.to_string(), set.to_string()];
+                        v.desc = format!("[{set} records] {}", v.desc);
+                    }
+                    nf += 1;
                 }
-                nf += 1;
             }
         }
     }
@@ -655,6 +770,7 @@ pub fn cgr_record_sets() -> Vec<(&'static str, Vec<Vec<u8>>)> {
     sets.push(("bad-all-N", vec![b"AC".to_vec(), b"NNN".to_vec()]));
     sets.push(("bad-trailing-n-lower", vec![b"acgtn".to_vec()]));
     sets.push(("bad-last", vec![b"ACG".to_vec(), b"TT".to_vec(), b"TTx".to_vec()]));
+    sets.push(("repeating", repeating_records().into_iter().map(|r| r.iter().map(|&b| if b == b'N' { b'A' } else { b }).collect()).collect()));
     sets
 }
 
@@ -787,6 +903,23 @@ pub fn c11(ctx: &mut Ctx) {
                 }
             }
             c11_long(ctx, c, *sz, &sq);
+        }
+    }
+    // a single-letter run long enough for the point to settle on the corner in double precision (54 steps for the
+    // corner (S,S), about 1075 for the others), then other bases, then the same letter again
+    for &ch in b"ACGTUacgtu" {
+        for run in [53usize, 54, 55, 64, 1074, 1075, 1076, 1200] {
+            for (sz, c) in [&comps[0], &comps[5]] {
+                if !sh.mine() {
+                    continue;
+                }
+                let mut sq = vec![ch; run];
+                sq.extend_from_slice(b"ACGTTGCAacgu");
+                sq.extend_from_slice(&[ch, ch, ch]);
+                sq.extend_from_slice(b"GATTACA");
+                sq.push(ch);
+                c11_long(ctx, c, *sz, &sq);
+            }
         }
     }
     // file path
@@ -1006,6 +1139,21 @@ pub fn cgr_reuse(ctx: &mut Ctx, kmer_mode: bool) {
     ctx.rep.count("cases.object_reuse_sequences", n);
 }
 
+pub fn c12_record_sets() -> Vec<(&'static str, Vec<Vec<u8>>)> {
+    vec![
+        ("two", vec![b"ACGTAC".to_vec(), b"GGGTTNA".to_vec()]),
+        ("five-with-empty", vec![b"ACGAA".to_vec(), b"".to_vec(), b"TN".to_vec(), b"GGCATT".to_vec(), b"acgtacgt".to_vec()]),
+        ("all-len-le-3", strings(S5, 1, 3)),
+        ("three-hundred", (0..300usize).map(|i| model::text_of((i * 2654435761usize % 65536) as u128, 8)[..(1 + i % 8)].to_vec()).collect()),
+        ("long-first", {
+            let mut lf = vec![fill(b"ACGGTCAN", 300_000)];
+            lf.extend(strings(S4, 1, 2).into_iter().take(6));
+            lf
+        }),
+        ("repeating", repeating_records()),
+    ]
+}
+
 pub fn c12(ctx: &mut Ctx) {
     cgr_reuse(ctx, true);
     let sizes = [1usize, 3, 4, 16, 49, 1000, 65_536, (1 << 20) - 1, 1 << 20];
@@ -1093,17 +1241,7 @@ pub fn c12(ctx: &mut Ctx) {
     // file path
     let mut sh = ctx.shard;
     let mut nf = 0u64;
-    let sets: Vec<(&str, Vec<Vec<u8>>)> = vec![
-        ("two", vec![b"ACGTAC".to_vec(), b"GGGTTNA".to_vec()]),
-        ("five-with-empty", vec![b"ACGAA".to_vec(), b"".to_vec(), b"TN".to_vec(), b"GGCATT".to_vec(), b"acgtacgt".to_vec()]),
-        ("all-len-le-3", strings(S5, 1, 3)),
-        ("three-hundred", (0..300usize).map(|i| model::text_of((i * 2654435761usize % 65536) as u128, 8)[..(1 + i % 8)].to_vec()).collect()),
-        ("long-first", {
-            let mut lf = vec![fill(b"ACGGTCAN", 300_000)];
-            lf.extend(strings(S4, 1, 2).into_iter().take(6));
-            lf
-        }),
-    ];
+    let sets = c12_record_sets();
     for (tag, recs) in &sets {
         for k in [1usize, 2, 3, 5] {
             for threads in [1usize, 2, 4, 16] {
@@ -1161,6 +1299,17 @@ pub fn replay(ctx: &mut Ctx, args: &[String]) {
             let steps: Vec<&str> = args[1..].iter().map(|s| s.as_str()).collect();
             cgr_reuse_sequence(ctx, args[0] == "C12reuse", &steps);
         }
+        "C12file" => {
+            let (base, n) = match args[1].split_once(':') {
+                Some((b, n)) => (b.to_string(), n.parse::<usize>().ok()),
+                None => (args[1].clone(), None),
+            };
+            let mut recs = c12_record_sets().into_iter().find(|(t, _)| *t == base).expect("record set").1;
+            if let Some(n) = n {
+                recs.truncate(n);
+            }
+            c12_file(ctx, &recs, args[2].parse().unwrap(), args[3].parse().unwrap(), args[4] == "1", args[5].parse().unwrap(), args[6].parse().unwrap(), &args[1])
+        }
         "C12huge" => {
             let (u, n, k, sz, norm): (Vec<u8>, usize, usize, usize, bool) = (unhex(&args[1]), args[2].parse().unwrap(), args[3].parse().unwrap(), args[4].parse().unwrap(), args[5] == "1");
             let s = fill(&u, n);
@@ -1176,7 +1325,7 @@ pub fn replay(ctx: &mut Ctx, args: &[String]) {
             c04_one_as(ctx, &oligo_set(k), "replay", &s, false, Some((&u, n)))
         }
         "C04long" => {
-            let long_set: Vec<Vec<u8>> = vec![crate::iters::long_input(70_000, 4), b"ACGU".to_vec(), crate::iters::long_input(66_000, 9), crate::iters::long_input(4097, 1), b"".to_vec(), crate::iters::long_input(140_000, 12)];
+            let long_set = c04_named_set(args.get(4).map(|s| s.as_str()).unwrap_or("long"));
             c04_file(ctx, args[1].parse().unwrap(), &long_set, &args[2], args[3].parse().unwrap())
         }
         "C04file" => {
